@@ -470,6 +470,9 @@ class HttpPattern(object):
     def hello(self, descriptor):
         if self.address is None:
             self.address = descriptor.name
+            # the method name is a literal, not a pattern
+            self.address_re, self.address_b_re = \
+                          self._compile_url_pattern(re.escape(self.address))
 
     @property
     def address(self):
